@@ -42,11 +42,11 @@ theorem from_to_dict_random_variables (h : c.Lawful) (r : RandomVariables E M) :
     RandomVariables.fromDict c (r.toDict c) = some r :=
   RandomVariables.from_to h r
 
-/-- `ExecutionSteps`: holds when no step carries expression-valued derivatives (full statement:
-    `from_to_dict_steps_full_false_witness`). -/
-theorem from_to_dict_steps_partial (ss : List (Step E)) (hg : ∀ s ∈ ss, s.Good) :
-    Steps.fromDict (E := E) (Steps.toDict c ss) = some ss :=
-  Steps.from_to ss hg
+/-- `ExecutionSteps`, full statement (true since /repo 118f2d1: derivatives are written as names
+    and rebuilt as symbols): any number of steps, any derivatives. -/
+theorem from_to_dict_steps (ss : List (Step E)) :
+    Steps.fromDict (E := E) (Steps.toDict ss) = some ss :=
+  Steps.from_to ss
 
 /-- `DataInfo`: everything but the path, which `to_dict` deliberately does not write. -/
 theorem from_to_dict_datainfo (di : DataInfo) :
@@ -136,14 +136,11 @@ theorem encode_not_canonical_witness :
     revert h'
     decide
 
-/-- `from_to_dict` for execution steps is false without the side condition: a step built by
-    `EstimationStep.create(derivatives=...)` does not come back. -/
-theorem from_to_dict_steps_full_false_witness :
-    EstStep.fromDict (E := String) (wStep.toDict strCodec) ≠ some wStep := by
-  intro h
-  have h' := congrArg (fun o => o.map (fun s => s.derivatives)) h
-  revert h'
-  decide
+/-- The pre-118f2d1 variant (`to_dict` wrote `str(tuple)`, `from_dict` passed the value through):
+    what came back as the `derivatives` field was not the field that was stored. -/
+theorem from_to_dict_steps_pre_repair_witness :
+    derivsToJsonPre pyTupleStr wStep.derivatives ≠ derivsToJson wStep.derivatives := by
+  simp [derivsToJsonPre, derivsToJson, wStep]
 
 /-! ### The intended repair: emit compartments and flows in a canonical order -/
 
@@ -193,9 +190,9 @@ example : strCodec.Lawful := ⟨fun _ => rfl, fun _ => rfl⟩
 example : CompSys.fromDict strCodec (wSys2.toDict strCodec) = some wSys2 :=
   from_to_dict_compartmental_system ⟨fun _ => rfl, fun _ => rfl⟩ wSys2 witness_systems_wf.2
 
-example : (Stmt.ode wSys1).Good ∧ (Step.est ({ wStep with derivatives := [.raw "(ETA_1,)"] } : EstStep String)).Good := by
-  constructor
-  · exact witness_systems_wf.1
-  · decide
+example : (Stmt.ode wSys1).Good := witness_systems_wf.1
+
+example : Steps.fromDict (E := String) (Steps.toDict [.est wStep]) = some [.est wStep] :=
+  from_to_dict_steps [.est wStep]
 
 end Pharmpy.C12
